@@ -33,7 +33,7 @@ def curStep (s : Cur) (i : Instr) : Option Cur :=
   if opc = 25 ∨ opc = 27 then (if s.idx + 1 ≤ s.len then some ⟨s.idx + 1, s.len, s.dels⟩ else none)
   else if opc = 31 then some ⟨if s.idx < 0 then s.idx + 1 else s.idx, s.len + 1, s.dels⟩
   else if opc = 32 then some ⟨s.idx - 1, s.len - 1, true⟩
-  else if opc = 33 ∨ opc = 59 ∨ opc = 56 ∨ opc = 35 ∨ opc = 36 ∨ opc = 37 ∨ opc = 38 then
+  else if opc = 33 ∨ opc = 59 ∨ opc = 56 ∨ opc = 35 ∨ opc = 36 ∨ opc = 37 ∨ opc = 38 ∨ opc = 28 ∨ opc = 29 then
     (if 0 ≤ s.idx ∧ s.idx < s.len then some s else none)
   else some s
 
@@ -607,6 +607,14 @@ theorem stepInstr_track (cur cur' : Cur) (s : St) (i : Instr) (h : Tr cur s.ctx)
     · have := attrSet_T cur s.ctx (ps.getD 0 0) ((if ps.getD 0 0 = 2 then s.ctx.map - 1 else 0 : Int) % 256).toNat (i16 (i32 (‹Int› + (if ps.getD 0 0 = 2 then s.ctx.map - 1 else 0)))) h h0 h1
       split <;> rename_i heq <;> rw [heq] at this <;> first | exact this | exact .inl (by rw [show (_ : Ctx).status = Status.died_early from this]; decide)
     · exact not_nullFault_stack
+  · simp [curStep] at hs
+    obtain ⟨⟨h0, h1⟩, e⟩ := hs
+    subst e
+    exact wc _ _ (putGlyph_T cur s.ctx _ h h0 h1)
+  · simp [curStep] at hs
+    obtain ⟨⟨h0, h1⟩, e⟩ := hs
+    subst e
+    exact wc _ _ (putSubs_T cur s.ctx _ _ _ h h0 h1)
   · have hc : cur' = cur := by
       unfold curStep at hs
       simp only [] at hs
@@ -614,8 +622,8 @@ theorem stepInstr_track (cur cur' : Cur) (s : St) (i : Instr) (h : Tr cur s.ctx)
         rintro (h | h)
         · exact ‹opc = 25 → False› h
         · exact ‹opc = 27 → False› h
-      have e2 : ¬ (opc = 33 ∨ opc = 59 ∨ opc = 56 ∨ opc = 35 ∨ opc = 36 ∨ opc = 37 ∨ opc = 38) := by
-        rintro (h | h | h | h | h | h | h)
+      have e2 : ¬ (opc = 33 ∨ opc = 59 ∨ opc = 56 ∨ opc = 35 ∨ opc = 36 ∨ opc = 37 ∨ opc = 38 ∨ opc = 28 ∨ opc = 29) := by
+        rintro (h | h | h | h | h | h | h | h | h)
         · exact ‹opc = 33 → False› h
         · exact ‹opc = 59 → False› h
         · exact ‹opc = 56 → False› h
@@ -623,6 +631,8 @@ theorem stepInstr_track (cur cur' : Cur) (s : St) (i : Instr) (h : Tr cur s.ctx)
         · exact ‹opc = 36 → False› h
         · exact ‹opc = 37 → False› h
         · exact ‹opc = 38 → False› h
+        · exact ‹opc = 28 → False› h
+        · exact ‹opc = 29 → False› h
       rw [if_neg e1, if_neg ‹opc = 31 → False›, if_neg ‹opc = 32 → False›, if_neg e2] at hs
       cases hs; rfl
     subst hc
